@@ -60,6 +60,7 @@ def deref(m, st, v):
 
 
 P = {}
+ISIZE_MAX = (1 << 63) - 1
 
 
 def prim(*names):
@@ -909,12 +910,18 @@ def slice_get(m, cfg, f, args, t):
         def mk(st_):
             st_.mem.setdefault(elem.key, Atom('%s[%r]' % (nm, idx), {'s': 'u8', 'k': 'int:u8'}))
             assume('in_bounds', repr(idx), repr(s.len))(st_)
+            # a slice has at most isize::MAX bytes: an in-bounds index is below that
+            m.add_ub(st_, idx, ISIZE_MAX - 1)
         return Fork([(mk, some(elem)), (assume('out_of_bounds', repr(idx), repr(s.len)), NONE)])
     if isinstance(idx, Adt) and idx.adt.endswith('::Range'):
         a, b = idx.fields
         new_len = lin_add(b, a, -1) if isinstance(a, Int) and isinstance(b, Int) else Atom(fresh('len'))
         sub = Slice(None, '%s[%r..%r]' % (nm, a, b), new_len)
-        return Fork([(assume('range_in_bounds', repr(a), repr(b), repr(s.len)), some(sub)),
+
+        def mk2(st_):
+            assume('range_in_bounds', repr(a), repr(b), repr(s.len))(st_)
+            m.add_ub(st_, b, ISIZE_MAX)   # end <= len <= isize::MAX
+        return Fork([(mk2, some(sub)),
                      (assume('range_out_of_bounds', repr(a), repr(b), repr(s.len)), NONE)])
     return NotImplemented
 
